@@ -4,6 +4,7 @@ import (
 	"errors"
 	"fmt"
 	"reflect"
+	"regexp"
 	"strings"
 	"time"
 
@@ -645,6 +646,12 @@ func (e *Engine) Build(n *Node) z.ZogSchema {
 					ns.UUID(o...)
 				} else {
 					s.UUID(o...)
+				}
+			case "match":
+				if t.Not {
+					ns.Match(regexp.MustCompile(t.S), o...)
+				} else {
+					s.Match(regexp.MustCompile(t.S), o...)
 				}
 			default:
 				panic("harness: bad string test " + t.T)
